@@ -346,6 +346,15 @@ type State struct {
 	inlined map[*ast.CallExpr][]Val // results of calls that were executed inline
 	seen    map[string]bool         // assumptions already on the path
 	names   map[string]string       // named sub-terms (heap reads)
+	polls   []poll                  // stop polls passed since the head of the innermost loop (C16)
+}
+
+// poll is a point where the goroutine looks at the stop signals: a select with stop cases
+// (stop = "true" on the stop branches, "false" on the others) or a call of a function whose
+// contract says it polls (stop = the condition "the callee took a stop case").
+type poll struct {
+	site string
+	stop string
 }
 
 // wr records a write into a heap component at reference ref ("*" = anywhere) under guard.
@@ -380,6 +389,7 @@ func (s *State) fork() *State {
 	n.cond = s.cond[:len(s.cond):len(s.cond)]
 	n.defers = s.defers[:len(s.defers):len(s.defers)]
 	n.trail = s.trail[:len(s.trail):len(s.trail)]
+	n.polls = s.polls[:len(s.polls):len(s.polls)]
 	if s.writes != nil {
 		n.writes = make(map[string][]wr, len(s.writes))
 		for k, v := range s.writes {
